@@ -189,18 +189,21 @@ claim('C08', 'Lean theorems over all payloads of all 35 tables (field-level deco
       'exact arithmetic; validated exhaustively for the 8-bit rate of turn and on sentinel sweeps elsewhere).',
       'DESIGN.md §5 C08')
 
-claim('C02', 'Lean theorems: whole-path round trip encode_msg -> sentences -> decode() for every wire-representable message of every layout (composition of C08 bit exactness, C09 acceptance, C01 variant selection), encode_dict = create + encode_msg, quantisation laws by integer arithmetic + differential execution on in-range assignments for all 35 classes through all three entry points',
-      'C02_roundtrip_wire (any layout, any payload of nominal length whose fields are not normalised, m = the decoded '
-      'message, i.e. m ranges over all wire-representable messages of that class/variant: encode_msg(m) with any '
-      'admissible talker/channel yields sentences that decode() maps back to exactly m - same class and every field '
-      'equal), C02_encode_dict (encode_dict with `type` or `msg_type` is create followed by encode_msg), C02_create '
-      '(create with all fields given builds exactly those values), C02_quantisation_positions/_decode/_tenths '
-      '(encode rounds positions to the nearest wire step, at most half a step; decode yields the nearest six-decimal '
-      'number; tenths are truncated toward zero, less than one step), C02_representable_fixed (wire-representable '
-      'values come back unchanged); known findings F15-F26 carry kernel-checked witnesses. Tie: encode_dict / '
-      'encode_msg / decode of pyais vs the model on seeded in-range assignments of all 35 classes via `type`, '
-      '`msg_type` and create(); pyais is checked directly against expected values computed from the standard.',
-      FLOAT_NOTE + 'The theorem quantifies over messages in the image of decoding (wire-representable values); '
-      'arbitrary in-range scaled values are covered by the quantisation theorems in exact arithmetic, not IEEE '
-      'arithmetic (float gap validated by the correspondence run).',
-      'DESIGN.md §5 C02')
+claim('C02', 'Lean theorems: whole-path round trip encode_msg -> sentences -> decode() for every message that decoding can produce, of every layout and every boundary length (composition of C08 idempotence, the prefix theorem, C09 acceptance, C01 variant selection), encode_dict = create + encode_msg, quantisation laws by integer arithmetic + differential execution on in-range assignments for all 35 classes through all three entry points',
+      'C02_roundtrip (any class of the source, any payload that selects it, contains its discriminator bits and ends '
+      'on a field boundary or inside the variable-length tail, padding zero; m = the decoded message, i.e. m ranges '
+      'over all messages the library can decode, shorter forms and normalised fields included: encode_msg(m) with any '
+      'admissible talker/channel yields sentences that decode() maps back to exactly m - same class/variant, every '
+      'field equal; exception: variable-length text decoding to the empty string, findings F12/F13), prefix_tables '
+      '(kernel-decided on the regenerated tables: the fields in front of the discriminator bits are never normalised), '
+      'C02_encode_dict (encode_dict with `type` or `msg_type` is create followed by encode_msg), C02_create (create '
+      'with all fields given builds exactly those values), C02_quantisation_positions/_decode/_tenths (encode rounds '
+      'positions to the nearest wire step, at most half a step; decode yields the nearest six-decimal number; tenths '
+      'are truncated toward zero, less than one step), C02_representable_fixed (wire-representable values come back '
+      'unchanged); known findings F15-F26 carry kernel-checked witnesses. Tie: encode_dict / encode_msg / decode of '
+      'pyais vs the model on seeded in-range assignments of all 35 classes via `type`, `msg_type` and create(); pyais '
+      'is checked directly against expected values computed from the standard.',
+      FLOAT_NOTE + 'The theorem quantifies over messages in the image of decoding; that create() coerces an '
+      'arbitrary in-range keyword assignment into such a message is covered by C02_create, the quantisation theorems '
+      '(exact arithmetic, not IEEE arithmetic) and the correspondence run, not by one theorem.',
+      'DESIGN.md §0.2, §5 C02')
